@@ -11,12 +11,13 @@ EXTENDS PipeConns, Json
 VARIABLE hist
 
 GenSizes == @@SIZES@@
+PrintAll == @@PRINTALL@@     \* FALSE (simulation): print a behaviour only when it has MaxOps calls
 
 GenInit == Init /\ hist = <<>>
 GenNext ==
   /\ Next
   /\ hist' = IF nops' > nops THEN Append(hist, last') ELSE hist
-  /\ (nops' > nops => PrintT("BEHAVIOUR " \o ToJson(hist')))
+  /\ ((nops' > nops /\ (PrintAll \/ nops' = MaxOps)) => PrintT("BEHAVIOUR " \o ToJson(hist')))
 GenSpec == GenInit /\ [][GenNext]_<<vars, hist>>
 
 Lens(s) == [i \in DOMAIN s |-> s[i].len]
